@@ -57,6 +57,8 @@ const (
 	kVar
 	kLit
 	kUF
+	kBound // bound variable of a quantifier
+	kQuant // forall / exists: args = [bound var, body]
 )
 
 type TermStore struct {
@@ -120,6 +122,45 @@ func (ts *TermStore) Fresh(hint string, sort Sort) *Term {
 		name = fmt.Sprintf("%s!%d", hint, n)
 	}
 	return ts.mk(kVar, name, sort)
+}
+
+// Bound creates a fresh bound variable for a quantifier.
+func (ts *TermStore) Bound(hint string, sort Sort) *Term {
+	n := ts.fresh["?"+hint]
+	ts.fresh["?"+hint] = n + 1
+	return ts.mk(kBound, fmt.Sprintf("?%s!%d", sanitize(hint), n), sort)
+}
+
+func (ts *TermStore) Quant(q string, bv, body *Term) *Term {
+	if body.IsTrue() && q == "forall" {
+		return body
+	}
+	if body.IsFalse() && q == "exists" {
+		return body
+	}
+	return ts.mk(kQuant, q, SBool, bv, body)
+}
+
+// mentions reports whether term t contains sub-term x.
+func (ts *TermStore) mentions(t, x *Term) bool {
+	seen := map[int]bool{}
+	var walk func(t *Term) bool
+	walk = func(t *Term) bool {
+		if t == x {
+			return true
+		}
+		if seen[t.id] {
+			return false
+		}
+		seen[t.id] = true
+		for _, a := range t.args {
+			if walk(a) {
+				return true
+			}
+		}
+		return false
+	}
+	return walk(t)
 }
 
 // Named returns the (unique) symbolic constant with exactly this name.
@@ -590,6 +631,12 @@ func (ts *TermStore) Show(t *Term) string {
 	return sb.String()
 }
 func (ts *TermStore) show(sb *strings.Builder, t *Term, depth int) {
+	if t.kind == kQuant {
+		fmt.Fprintf(sb, "(%s ((%s %s)) ", t.op, t.args[0].op, t.args[0].sort)
+		ts.show(sb, t.args[1], depth+1)
+		sb.WriteByte(')')
+		return
+	}
 	if len(t.args) == 0 {
 		if t.kind == kApp {
 			sb.WriteString(t.op)
@@ -643,6 +690,23 @@ func (ts *TermStore) Script(prelude string, datatypes []string, hyps []*Term, go
 	for _, g := range getValues {
 		visit(g)
 	}
+	// terms with a free occurrence of a bound variable must be printed inside their binder
+	hasBound := map[int]bool{}
+	for _, t := range order {
+		if t.kind == kBound {
+			hasBound[t.id] = true
+			continue
+		}
+		for _, a := range t.args {
+			if hasBound[a.id] {
+				hasBound[t.id] = true
+			}
+		}
+		if t.kind == kQuant {
+			// closed if no other bound variable occurs free in the body
+			hasBound[t.id] = ts.freeBound(t, map[int]bool{})
+		}
+	}
 	var sb strings.Builder
 	sb.WriteString(prelude)
 	for _, d := range datatypes {
@@ -688,6 +752,17 @@ func (ts *TermStore) Script(prelude string, datatypes []string, hyps []*Term, go
 		if len(t.args) == 0 {
 			return t.op
 		}
+		if t.kind == kQuant {
+			pats := ts.patterns(t.args[0], t.args[1])
+			if len(pats) == 0 {
+				return fmt.Sprintf("(%s ((%s %s)) %s)", t.op, t.args[0].op, t.args[0].sort, pr(t.args[1]))
+			}
+			var ps []string
+			for _, p := range pats {
+				ps = append(ps, "("+pr(p)+")")
+			}
+			return fmt.Sprintf("(%s ((%s %s)) (! %s :pattern %s))", t.op, t.args[0].op, t.args[0].sort, pr(t.args[1]), strings.Join(ps, " :pattern "))
+		}
 		var b strings.Builder
 		b.WriteByte('(')
 		b.WriteString(t.op)
@@ -699,7 +774,7 @@ func (ts *TermStore) Script(prelude string, datatypes []string, hyps []*Term, go
 		return b.String()
 	}
 	for _, t := range order {
-		if len(t.args) > 0 && refs[t.id] > 1 {
+		if len(t.args) > 0 && refs[t.id] > 1 && !hasBound[t.id] {
 			body := pr(t)
 			n := fmt.Sprintf("t!%d", t.id)
 			fmt.Fprintf(&sb, "(define-fun %s () %s %s)\n", n, t.sort, body)
@@ -724,4 +799,71 @@ func (ts *TermStore) Script(prelude string, datatypes []string, hyps []*Term, go
 		sb.WriteString("))\n")
 	}
 	return Script{Text: sb.String(), Symbols: syms}
+}
+
+// freeBound: does t contain a bound variable that is not bound inside t?
+func (ts *TermStore) freeBound(t *Term, bound map[int]bool) bool {
+	memo := map[int]bool{}
+	var walk func(t *Term, bound map[int]bool) bool
+	walk = func(t *Term, bound map[int]bool) bool {
+		if t.kind == kBound {
+			return !bound[t.id]
+		}
+		if t.kind == kQuant {
+			nb := map[int]bool{t.args[0].id: true}
+			for k := range bound {
+				nb[k] = true
+			}
+			return walk(t.args[1], nb)
+		}
+		if len(bound) == 0 {
+			if v, ok := memo[t.id]; ok {
+				return v
+			}
+		}
+		r := false
+		for _, a := range t.args {
+			if walk(a, bound) {
+				r = true
+				break
+			}
+		}
+		if len(bound) == 0 {
+			memo[t.id] = r
+		}
+		return r
+	}
+	return walk(t, bound)
+}
+
+// patterns: instantiation triggers for a quantifier: applications (seq.nth / select / uninterpreted) that have
+// the bound variable as a direct argument.
+func (ts *TermStore) patterns(bv, body *Term) []*Term {
+	var out []*Term
+	seen := map[int]bool{}
+	var walk func(t *Term)
+	walk = func(t *Term) {
+		if seen[t.id] || t.kind == kQuant {
+			return
+		}
+		seen[t.id] = true
+		direct := false
+		for _, a := range t.args {
+			if a == bv {
+				direct = true
+			}
+		}
+		if direct && (t.kind == kUF || (t.kind == kApp && (t.op == "seq.nth" || t.op == "select" || t.op == "str.at"))) {
+			out = append(out, t)
+			return
+		}
+		for _, a := range t.args {
+			walk(a)
+		}
+	}
+	walk(body)
+	if len(out) > 3 {
+		out = out[:3]
+	}
+	return out
 }
